@@ -34,7 +34,9 @@ STAGES = ["none", "bad_owner_signature", "expired", "missing_link", "unauthorise
           "failing_step_rule_require_after_all_consumed", "failing_step_rule_require_nothing_recorded",
           # the layout was still valid when the verifying process started (and verified other things); it has expired by the
           # time it is itself verified
-          "expired_meanwhile"]
+          "expired_meanwhile",
+          # the LAST step has no link at all; its only functionary also signed (valid) links for the first step
+          "missing_last_link_functionary_signed_first_step"]
 MEANWHILE = {}
 OUTCOMES = ["exit0", "exit1", "exit2", "exit127", "exit255", "killed", "not_found", "creates", "modifies", "deletes"]
 RULESETS = ["none", "satisfied", "violated_materials", "violated_products", "products_only_create_preexisting",
@@ -102,6 +104,8 @@ def build_cell(W, rng, stage, outcome, rs, ninsp, level, keyset=FUNC, random_ext
         steps[1]["expected_products"] = [["MATCH", "*", "WITH", "PRODUCTS", "FROM", "insp0"], ["DISALLOW", "*"]]
     if stage == "disagreeing_links_third_signer":
         steps[0]["pubkeys"] = [W.kid(ka), W.kid(kb), W.kid(kd)]
+    if stage == "missing_last_link_functionary_signed_first_step":
+        steps[1]["pubkeys"] = [W.kid(ka)]
     surplus = stage.startswith("surplus_")
     if surplus:
         # the delegated step has a second authorised functionary who supplies a perfectly good plain link: the step
@@ -217,7 +221,7 @@ def build_cell(W, rng, stage, outcome, rs, ninsp, level, keyset=FUNC, random_ext
             files[prefix + f"package.{W.pfx(kc)}.link"] = scen.dumps(w("inner_layout"))
             if sub_stage != "sublayout_missing_link":
                 files[prefix + f"package.{W.pfx(kc)}/inner.{W.pfx(ka)}.link"] = scen.dumps(w("inner_link"))
-        else:
+        elif stage != "missing_last_link_functionary_signed_first_step":
             files[prefix + f"package.{W.pfx(kc)}.link"] = scen.dumps(w(("package", kc)))
         if level == "top":
             top = lw
